@@ -80,11 +80,27 @@ pub fn bytes_step(d: &mut Driver, ch: &mut dyn Chooser, i: usize, full: bool) {
             let (a, ca) = pick_idx(ch, len);
             let (e0, _) = pick_idx(ch, len);
             let (a, e) = if a <= e0 { (a, e0) } else { (e0, a) };
-            d.log(format!("slice_ref B{sid} {a}..{e}"));
-            let r = run(d, "slice_ref", || {
-                let sub = &b[a..e];
-                b.slice_ref(sub)
+            // the sub-slice may come from this handle or from another handle on the same bytes
+            let sibling: Option<Bytes> = if e > a && ch.choose(2) == 0 {
+                d.pool.iter().find_map(|o| match &o.val {
+                    Val::B(ob) if !ob.is_empty() && ob.as_ptr() as usize <= p0 + a && ob.as_ptr() as usize + ob.len() >= p0 + e => Some(ob.clone()),
+                    _ => None,
+                })
+            } else {
+                None
+            };
+            d.log(format!("slice_ref B{sid} {a}..{e}{}", if sibling.is_some() { " (sub-slice taken from a sibling handle)" } else { "" }));
+            let r = run(d, "slice_ref", || match &sibling {
+                Some(sb) => {
+                    let so = p0 + a - sb.as_ptr() as usize;
+                    b.slice_ref(&sb[so..so + (e - a)])
+                }
+                None => {
+                    let sub = &b[a..e];
+                    b.slice_ref(sub)
+                }
             });
+            drop(sibling);
             if let Some((c, ev)) = r {
                 expect_no_byte_alloc(d, "slice_ref", &ev, &rname);
                 if e > a {
